@@ -218,6 +218,9 @@ func scenarios() []scenario {
 		scenario{"conc=3,primes=2,reader=NEP*", 3, 2, "NE", false},
 		// the reader never yields a prime: only the cancellation can end the call (producers must look at
 		// the context between draws; a spinning producer must not keep the call from returning)
+		// every producer's read fails: each sends its error; only the first is consumed
+		scenario{"conc=3,primes=1,reader=E-forever", 3, 1, "E*", false},
+		scenario{"conc=3,primes=2,reader=P then E-forever", 3, 2, "PE*", false},
 		scenario{"conc=1,primes=1,reader=N-forever,cancel", 1, 1, "N*", true},
 		scenario{"conc=2,primes=1,reader=N-forever,cancel", 2, 1, "N*", true},
 	)
